@@ -204,6 +204,8 @@ pub enum Mutation {
     DupLevel { level: u8, adjust_nspk: bool, adjust_pk: bool },
     /// present (child public key, first `keep` signed keys + the signature over the child key)
     ChainTruncate { keep: u8, adjust_pk: bool },
+    /// prepend a signed public key (LMS signature + key) taken from another triple as a new top level
+    ChainExtend { other: u16, adjust_pk: bool },
     Truncate { target: Target, len: u16 },
     Extend { target: Target, extra: u8, fill: u8 },
     /// use the signature / key / message of another pool triple (any hash)
@@ -458,6 +460,22 @@ pub fn apply(pool: &[Base], base: usize, m: &Mutation) -> (Triple, &'static str)
             }
             "chain-truncate"
         }
+        Mutation::ChainExtend { other, adjust_pk } => {
+            // donors: triples of the same hash with at least two levels
+            let donors: Vec<usize> = pool.iter().enumerate().filter(|(_, o)| o.hash == b.hash && !o.parsed.pubs.is_empty()).map(|(i, _)| i).collect();
+            if !donors.is_empty() {
+                let o = &pool[donors[midx(*other as usize, donors.len())]];
+                let (osigs, opubs) = pieces(o);
+                let (mut sigs, mut pubs) = pieces(b);
+                sigs.insert(0, osigs[0].clone());
+                pubs.insert(0, opubs[0].clone());
+                t.sig = assemble(b.parsed.nspk + 1, &sigs, &pubs);
+                if *adjust_pk {
+                    t.pk[0..4].copy_from_slice(&(b.parsed.nspk + 2).to_be_bytes());
+                }
+            }
+            "chain-extend"
+        }
         Mutation::Truncate { target, len } => {
             let v = target_mut(&mut t, *target);
             let l = midx(*len as usize, v.len() + 1);
@@ -522,6 +540,7 @@ pub fn mutation_strategy() -> BoxedStrategy<Mutation> {
         3 => (0u8..8, any::<bool>(), any::<bool>()).prop_map(|(level, adjust_nspk, adjust_pk)| Mutation::DropLevel { level, adjust_nspk, adjust_pk }),
         3 => (0u8..8, any::<bool>(), any::<bool>()).prop_map(|(level, adjust_nspk, adjust_pk)| Mutation::DupLevel { level, adjust_nspk, adjust_pk }),
         3 => (0u8..8, any::<bool>()).prop_map(|(keep, adjust_pk)| Mutation::ChainTruncate { keep, adjust_pk }),
+        3 => (any::<u16>(), any::<bool>()).prop_map(|(other, adjust_pk)| Mutation::ChainExtend { other, adjust_pk }),
         4 => (target_strategy(), any::<u16>()).prop_map(|(target, len)| Mutation::Truncate { target, len }),
         3 => (target_strategy(), any::<u8>(), any::<u8>()).prop_map(|(target, extra, fill)| Mutation::Extend { target, extra, fill }),
         3 => (target_strategy(), any::<u16>()).prop_map(|(target, other)| Mutation::ReplaceFromAny { target, other }),
